@@ -755,7 +755,7 @@ func c08(cx *Ctx, r *ev.Report) {
 		ok := s.Fn == ri.run || below[s.Fn.String()]
 		r.Check(ok, key, ruleW, cx.P.Pos(s.Pos.Pos()), "shape", fmt.Sprintf("%s writes CPU.HALT (%s) outside instruction execution", s.Fn, s.Kind))
 	}
-	r.AddFloor("halt_write_sites", len(sites), 2)
+	r.AddFloor("halt_write_sites", len(sites), 1)
 	// the HALT arm
 	n := armObligations(cx, r, armSelection{prop: "C08", rule: "SUMMARY-EQ(arm): HALT leaves PC on the opcode, sets the halted indication, changes nothing else but R", keyPart: "halt-arm", classes: classSet("halt")})
 	r.AddFloor("halt_arms", n, 1)
